@@ -193,8 +193,9 @@ def coefficient(repo, res, a: UfuncAnchors):
             ok = facts.get("mul == 1") is True
             if ok and rebound:
                 # allowed only when out was multiplied and out_arr shares its memory
-                calls = [norm(c) for c in path_calls(p)]
-                ok = "multiply(out, mul, out=out)" in calls and facts.get("np.shares_memory(out_arr, out)") is True
+                from rules.ufunc import scaling_call
+
+                ok = any(scaling_call(c, fn.node) is not None for c in path_calls(p)) and facts.get("np.shares_memory(out_arr, out)") is True
             if not ok:
                 res.bad(f"exit:{val}", fn.where(end[1]), "a result is returned without the simplification coefficient being applied", "mul == 1 or mul * out_arr", [f"{t}={tr}" for t, tr in facts.items()][-4:], rid=r3)
                 break
@@ -208,6 +209,17 @@ def coefficient(repo, res, a: UfuncAnchors):
     # out= is scaled as well (typestate along every path through the wrap-up block; rules/ufunc.py)
     ok, where, conds = out_target_scaled(a)
     res.check(ok, "out-scaled", where, "on a path where out= is given and the simplification coefficient differs from 1 the out target is never multiplied by it: the caller's buffer keeps the unscaled numbers while the returned value is scaled", "multiply(out, mul, out=out) on every such path", conds, path=conds, rid=r3)
+    # ... on the bare buffer: through unyt's own multiply the out array is an operand that still carries its *previous*
+    # unit, whose own simplification coefficient is applied to the numbers again - and again (a = [1, 2] m**2/cm; a *= 2.0
+    # recursed until the stack was exhausted, leaving inf in a)
+    from rules.ufunc import scaling_call as _sc
+
+    kinds = [(_sc(c, fn.node), c) for c in ast.walk(ast.Module(body=a.post, type_ignores=[])) if isinstance(c, ast.Call)]
+    kinds = [(k, c) for k, c in kinds if k is not None]
+    if not kinds:
+        raise AnalysisError(f"{fn.where()}: the call that scales the out target was not found")
+    disp = [c for k, c in kinds if k == "dispatching"]
+    res.check(not disp, "out-scaled-on-bare-buffer", fn.where(disp[0]) if disp else fn.where(), "the simplification coefficient is applied to the out target through unyt's own multiply: the out array enters __array_ufunc__ again as an operand with its previous unit, and when that unit simplifies with a coefficient of its own (m**2/cm = 100 m) the numbers are scaled again, recursively - a *= 2.0 on [1, 2] m**2/cm raises RecursionError and leaves inf", "np.multiply(<bare view of out>, mul, out=<the same view>)", norm(disp[0]) if disp else "", rid=r3)
     # `mul` definitions come from the unit rule (element 0 of its result), the power mapping, or are the literal 1
     bad_defs, n_rule = [], 0
     for node, kind, detail in unit_rule_results(a, "mul"):
@@ -483,7 +495,9 @@ MUTANTS = [
     Mutant("no-rescale", ARR, "unyt_array.__array_ufunc__", "inp1 = np.asarray(inp1, dtype=new_dtype) * conv", "inp1 = np.asarray(inp1, dtype=new_dtype)", ("C04-R2",)),
     Mutant("eval-swapped", ARR, "unyt_array.__array_ufunc__", "inp0.view(np.ndarray), inp1.view(np.ndarray), out=out_func", "inp1.view(np.ndarray), inp0.view(np.ndarray), out=out_func", ("C04-R2",)),
     Mutant("coeff-dropped", ARR, "unyt_array.__array_ufunc__", "        return mul * out_arr", "        return out_arr", ("C04-R3",)),
-    Mutant("out-not-scaled", ARR, "unyt_array.__array_ufunc__", "                multiply(out, mul, out=out)\n", "                pass\n", ("C04-R3",)),
+    Mutant("out-not-scaled", ARR, "unyt_array.__array_ufunc__", "                np.multiply(out_data, mul, out=out_data)\n", "                pass\n", ("C04-R3",)),
+    Mutant("out-scaled-through-unyt-multiply", ARR, "unyt_array.__array_ufunc__", "                out_data = np.asarray(out)\n                np.multiply(out_data, mul, out=out_data)\n", "                multiply(out, mul, out=out)\n", ("C04-R3",)),
+    Mutant("twin-out-scaled-on-view", ARR, "unyt_array.__array_ufunc__", "                out_data = np.asarray(out)\n", "                out_data = out.view(np.ndarray)\n", (), benign=True),
     Mutant("shortcut-half", ARR, "unyt_array.__array_ufunc__", "                            unit = Unit(registry=unit.registry)\n", "", ("C04-R3",)),
     Mutant("divide-map", ARR, None, "divide: lambda x: 2 - x", "divide: lambda x: 1 - x", ("C04-R4",)),
     Mutant("reduce-selector", ARR, "unyt_array.__array_ufunc__", 'if ufunc in (multiply, divide) and method == "reduce":', 'if ufunc in (multiply,) and method == "reduce":', ("C04-R4",)),
